@@ -1,12 +1,13 @@
 #!/bin/bash
-# usage: tools/confirm_seed.sh <property> <mK> [srcdir]
+# usage: tools/confirm_seed.sh <property> <mK> [srcdir] [name-to-store-under]
 # Confirms a seeded change independently in a scratch worktree (outside /repo and
 # /verif), then runs the property's quick check against it in /repo and records
 # everything under /verif/seeded/<property>-<mK>/.
 set -u
 id="$1"; m="$2"; src="${3:-/tmp/seedout/$id/$m}"
 export GOFLAGS=-mod=mod GOPROXY=off GOSUMDB=off GOTOOLCHAIN=local
-out=/verif/seeded/$id-$m
+name="${4:-$m}"
+out=/verif/seeded/$id-$name
 mkdir -p "$out"
 cp "$src/patch.diff" "$out/patch.diff"
 [ -f "$src/demo_test.go" ] && cp "$src/demo_test.go" "$out/demo_test.go"
@@ -48,18 +49,18 @@ if [ $applies -eq 0 ] && git -C /repo apply --check "$out/patch.diff" 2>/dev/nul
   chk_out=$(cd /verif && ./check "$id" 2>&1); chk_rc=$?
   git -C /repo apply -R "$out/patch.diff"
 fi
-python3 - "$id" "$m" "$demo_clean" "$applies" "$builds" "$suite" "$demo_patched" "$chk_rc" <<EOF
+python3 - "$id" "$m" "$demo_clean" "$applies" "$builds" "$suite" "$demo_patched" "$chk_rc" "$name" <<EOF
 import json,sys
-id,m,demo_clean,applies,builds,suite,demo_patched,chk_rc=sys.argv[1:9]
+id,m,demo_clean,applies,builds,suite,demo_patched,chk_rc,name=sys.argv[1:10]
 agent={}
-try: agent=json.load(open('/verif/seeded/%s-%s/agent_meta.json'%(id,m)))
+try: agent=json.load(open('/verif/seeded/%s-%s/agent_meta.json'%(id,name)))
 except Exception: pass
 out=open('/dev/stdin').read() if False else ''
-meta={"property":id,"change":m,"summary":agent.get("summary"),"functions":agent.get("functions"),"needs_to_manifest":agent.get("needs"),
+meta={"property":id,"change":name,"summary":agent.get("summary"),"functions":agent.get("functions"),"needs_to_manifest":agent.get("needs"),
  "confirmed":{"demo_passes_on_unchanged_tree":demo_clean=="0","patch_applies":applies=="0","builds":builds=="0","existing_suite_passes_with_change":suite=="0","demo_fails_with_change":demo_patched!="0"},
  "ran":["scratch worktree of /repo HEAD under /tmp (removed afterwards)","demo: "+str(agent.get("demo_run")),"suite: go test -vet=off -count=1 ./...","check: git -C /repo apply patch.diff; ./check %s; git -C /repo apply -R patch.diff"%id],
  "check_exit_code":int(chk_rc),"detected_by_check":chk_rc=="1"}
-json.dump(meta,open('/verif/seeded/%s-%s/meta.json'%(id,m),'w'),indent=1)
+json.dump(meta,open('/verif/seeded/%s-%s/meta.json'%(id,name),'w'),indent=1)
 print(id,m,"valid=",all(meta["confirmed"].values()),"detected=",meta["detected_by_check"])
 EOF
 echo "$chk_out" | grep -E "VIOLATION|discharged" | head -4 > "$out/check_output.txt"
